@@ -66,34 +66,57 @@ Fixpoint stopped_followed (evs : list event) : bool :=
 Definition announced (evs : list event) : list Z :=
   flat_map (fun e => match e with EvStream (Some u) => [u] | _ => [] end) evs.
 
-(* one announcement per STREAM_START, carrying the URI of the last set_uri before it
-   (a STREAM_START before any set_uri has no URI to announce) *)
-Fixpoint expected_announcements (last : option Z) (ins : list input) : list Z :=
-  match ins with
-  | [] => []
-  | SetUri u _ :: t => expected_announcements (Some u) t
-  | StreamStart :: t =>
-      match last with Some u => [u] | None => [] end ++ expected_announcements last t
-  | _ :: t => expected_announcements last t
+(* which inputs perform a set_uri: the call itself, or an about-to-finish signal delivered
+   outside the actor thread while a callback is registered (cb) whose action is set_uri *)
+Definition cb_after (cb : bool) (i : input) : bool :=
+  match i with SetAtfCallback b => b | _ => cb end.
+
+Definition sets_uri (cb : bool) (i : input) : option Z :=
+  match i with
+  | SetUri u _ => Some u
+  | AboutToFinish false (Some (u, _)) => if cb then Some u else None
+  | _ => None
   end.
 
-Definition last_uri (ins : list input) : option Z :=
-  fold_left (fun acc i => match i with SetUri u _ => Some u | _ => acc end) ins None.
+Definition uri_after (cb : bool) (last : option Z) (i : input) : option Z :=
+  match sets_uri cb i with Some u => Some u | None => last end.
+
+(* one announcement per STREAM_START, carrying the URI of the last set_uri before it
+   (a STREAM_START before any set_uri has no URI to announce) *)
+Fixpoint expected_announcements (cb : bool) (last : option Z) (ins : list input) : list Z :=
+  match ins with
+  | [] => []
+  | i :: t =>
+      match i with
+      | StreamStart => match last with Some u => [u] | None => [] end
+      | _ => []
+      end ++ expected_announcements (cb_after cb i) (uri_after cb last i) t
+  end.
+
+Definition uri_hist (ins : list input) : bool * option Z :=
+  fold_left (fun s i => (cb_after (fst s) i, uri_after (fst s) (snd s) i)) ins (false, None).
+
+Definition last_uri (ins : list input) : option Z := snd (uri_hist ins).
 
 (* ---------------------------------------------------------------- T4 *)
 
 (* Tags delivered for the UPCOMING stream: Some acc between a set_uri and the next
    STREAM_START (acc = the TAG messages since that set_uri, merged), None otherwise. *)
-Definition upcoming_tags (ins : list input) : option dict :=
-  fold_left
-    (fun acc i =>
-       match i with
-       | SetUri _ _ => Some []
-       | StreamStart => None
-       | Tag tl => option_map (fun d => dict_update d (convert_taglist tl)) acc
-       | _ => acc
-       end)
-    ins None.
+Definition upcoming_after (cb : bool) (acc : option dict) (i : input) : option dict :=
+  match sets_uri cb i with
+  | Some _ => Some []
+  | None =>
+      match i with
+      | StreamStart => None
+      | Tag tl => option_map (fun d => dict_update d (convert_taglist tl)) acc
+      | _ => acc
+      end
+  end.
+
+Definition upcoming_hist (ins : list input) : bool * option dict :=
+  fold_left (fun s i => (cb_after (fst s) i, upcoming_after (fst s) (snd s) i)) ins (false, None).
+
+Definition upcoming_tags (ins : list input) : option dict := snd (upcoming_hist ins).
 
 Definition is_tags (e : event) : bool := match e with EvTags _ => true | _ => false end.
 
@@ -152,3 +175,21 @@ Definition late_view_keys (pre rest : list input) : list key :=
 
 Definition sent_keys (pre : list input) : list key :=
   tag_keys (o_evs (snd (step (final init pre) StreamStart))).
+
+(* ---------------------------------------------------------------- glue around the core *)
+
+(* the live_stream flag of the last set_uri performed (by a call or by the about-to-finish
+   callback) *)
+Definition flags_of (cb : bool) (i : input) : option uflags :=
+  match i with
+  | SetUri _ fl => Some fl
+  | AboutToFinish false (Some (_, fl)) => if cb then Some fl else None
+  | _ => None
+  end.
+
+Definition live_hist (ins : list input) : bool * bool :=
+  fold_left (fun s i => (cb_after (fst s) i,
+                         match flags_of (fst s) i with Some fl => f_live fl | None => snd s end))
+            ins (false, false).
+
+Definition last_live (ins : list input) : bool := snd (live_hist ins).
